@@ -8,7 +8,7 @@ pub(crate) struct SymbolTable {
 
 pub(crate) struct Symbol {
     pub scope: Scope,
-    pub index: u16,
+    pub index: usize,
 }
 
 #[derive(PartialEq, Copy, Clone)]
@@ -52,7 +52,7 @@ impl Context {
         self.max_size += 1;
 
         Symbol {
-            index: (self.total_len() - 1).try_into().unwrap(),
+            index: self.total_len() - 1,
             scope: self.scope,
         }
     }
@@ -66,7 +66,7 @@ impl Context {
             // last one wins: a name can be declared more than once in the same scope
             if let Some(index) = scope.iter().rposition(|n| n == name) {
                 return Some(Symbol {
-                    index: (abs_index + index).try_into().unwrap(),
+                    index: abs_index + index,
                     scope: self.scope,
                 });
             }
